@@ -65,6 +65,18 @@ digits (⇔ integral and below 10^6 in magnitude). -/
 def Flt.textAsInt (f : Flt) : Bool :=
   f.m == 0 || (decide (0 ≤ f.e) && decide (f.m * 2 ^ f.e.toNat < 1000000))
 
+/-- canonical representative: `m` odd, or `m = 0 ∧ e = 0` (what a float64 decomposes into) -/
+def Flt.canonical (f : Flt) : Bool := (f.m == 0 && f.e == 0) || f.m % 2 == 1
+
+/-- THE VALUE of a float, as an exact dyadic rational `n · 2^e` in the form `(n, e)` with `e ≤ 0`
+(`e = 0` for integral values): zero is `(0, 0)` whatever its sign, an integral value `± m·2^e`
+(`0 ≤ e`) is `(± m·2^e, 0)`, anything else `(± m, e)`.  On canonical representatives two floats have
+the same `val` iff they are the same real number. -/
+def Flt.val (f : Flt) : Int × Int :=
+  if f.m = 0 then (0, 0)
+  else if 0 ≤ f.e then (f.intVal, 0)
+  else ((if f.neg then -(Int.ofNat f.m) else Int.ofNat f.m), f.e)
+
 inductive Lit
   | null
   | bool (b : Bool)
@@ -82,6 +94,12 @@ implementation-defined out-of-range conversion never happens; +2^63 is excluded,
 -2^63 included): the value is integral and fits int64.  Includes ±0. -/
 def Flt.jsonAsInt (f : Flt) : Bool :=
   f.m == 0 || (decide (0 ≤ f.e) && inInt64 f.intVal)
+
+/-- the numeric value of a number literal as an exact dyadic rational (`none` for non-numbers) -/
+def Lit.val : Lit → Option (Int × Int)
+  | .int i => some (i, 0)
+  | .flt f => some f.val
+  | _ => none
 
 /-- What survives of a scalar after `MarshalJSON` → JSON text → token class: a
 float written in integer syntax is an integer-class number of the same value. -/
@@ -251,6 +269,26 @@ def JKvs.find : JKvs → Str → Option J
 
 def splitKey : Str := [0x73, 0x70, 0x6C, 0x69, 0x74]  -- "split"
 
+/-- `encoding/json`'s key folding (`foldName`): ASCII letters to upper case, U+017F (long s) to
+`S`, U+212A (Kelvin sign) to `K` -/
+def foldKey : Str → Str
+  | [] => []
+  | 0xC5 :: 0xBF :: r => 0x53 :: foldKey r
+  | 0xE2 :: 0x84 :: 0xAA :: r => 0x4B :: foldKey r
+  | c :: r => (if 0x61 ≤ c && c ≤ 0x7A then c - 0x20 else c) :: foldKey r
+
+/-- does the key select the field `Split … `json:"split"``?  (exact or case-folded match) -/
+def isSplitKey (k : Str) : Bool := foldKey k == [0x53, 0x50, 0x4C, 0x49, 0x54]
+
+/-- the member `json.Unmarshal` into `struct{Split json.RawMessage `json:"split"`}` keeps: members
+are assigned in source order, so the LAST member whose key folds to `split` wins -/
+def JKvs.findSplit : JKvs → Option J
+  | .nil => none
+  | .cons k j r =>
+    match r.findSplit with
+    | some v => some v
+    | none => if isSplitKey k then some j else none
+
 /-- The type at which the operand of a split is converted: an argument split
 over a map is a `map<T>` of the parameter's type `T` (an array operand needs
 no adjustment: `fix` saturates `arrayDim` at 0). -/
@@ -281,7 +319,7 @@ def buildBinding (split : Bool) (t : TypeId) (j : J) : Option Arg :=
   if split then
     match j with
     | .obj kvs =>
-      match kvs.find splitKey with
+      match kvs.findSplit with
       | some v => (convertSplit t v).map .split
       | none => none
     | _ => none
@@ -342,13 +380,18 @@ def normEKvs : EKvs → EKvs
 end
 
 mutual
-/-- `Ast.Format()` followed by the MRO parser (`BuildCallSource` then
-`InvocationDataFromSource`): structure and flags are kept, scalars go through
-the text printer and the lexer. -/
+/-- What `Ast.Format()` followed by the MRO parser (`BuildCallSource` then
+`InvocationDataFromSource`) returns, as a TREE function: structure and flags are
+kept – except that an empty struct literal prints as `{}`, which the grammar
+reads as an empty map –, scalars go through the text printer and the lexer.
+That this tree function IS printer ∘ lexer ∘ parser is a theorem
+(Proofs/InvocationText.lean `text_leg_exp`: `parseValExp (fmt [] (toF e))`, with
+the byte-exact models of C09, returns `toF`-image of `reparse e`); only
+strconv's 'g' text of a float enters as an explicit oracle. -/
 def reparse : Exp → Exp
   | .lit l => .lit (textLit l)
   | .arr xs => .arr (reparseList xs)
-  | .map k kvs => .map k (reparseKvs kvs)
+  | .map k kvs => .map (match kvs with | .nil => false | .cons _ _ _ => k) (reparseKvs kvs)
 def reparseList : EList → EList
   | .nil => .nil
   | .cons e r => .cons (reparse e) (reparseList r)
@@ -458,6 +501,35 @@ def wtFields (fs : Fields) : EKvs → Bool
       && wtFields fs r
 end
 
+mutual
+/-- JSON-side typing (audit C16-M2): the JSON value `j` has the shape of the type – arrays under
+array dims, objects under typed maps (any keys), objects whose every key is a declared member under
+struct types, any object under the untyped `map`, scalars or `null` elsewhere; `null` everywhere.
+(The counterpart of `wt` before conversion: `convert_wt` shows the conversion of such a value is
+well-typed, i.e. carries exactly the struct-vs-map flags the compiler demands.) -/
+def jWt (b : Base) (ad md : Nat) : J → Bool
+  | .lit l => l.isNull || (ad == 0 && md == 0 && b.isScalar)
+  | .arr xs => decide (ad > 0) && jWtList b (ad - 1) md xs
+  | .obj kvs =>
+    ad == 0 &&
+    match mapAction b ad md with
+    | .vals b' ad' md' => jWtVals b' ad' md' kvs
+    | .fields fs => jWtFields fs kvs
+    | .markStruct => false
+    | .keep => b.isUmap
+def jWtList (b : Base) (ad md : Nat) : JList → Bool
+  | .nil => true
+  | .cons j r => jWt b ad md j && jWtList b ad md r
+def jWtVals (b : Base) (ad md : Nat) : JKvs → Bool
+  | .nil => true
+  | .cons _ j r => jWt b ad md j && jWtVals b ad md r
+def jWtFields (fs : Fields) : JKvs → Bool
+  | .nil => true
+  | .cons k j r =>
+    (fs.find k).isSome && jWt (fs.findD k).base (fs.findD k).arrayDim (fs.findD k).mapDim j
+      && jWtFields fs r
+end
+
 /-! ## the call level: `BuildCallAst` / `BuildDataForAst` loops -/
 
 abbrev Sig := List (Str × TypeId)
@@ -494,7 +566,7 @@ def canonArg (split : Bool) (j : J) : J :=
   if split then
     match j with
     | .obj kvs =>
-      match kvs.find splitKey with
+      match kvs.findSplit with
       | some v => .obj (.cons splitKey (normJ v) .nil)
       | none => .lit .null
     | _ => .lit .null
